@@ -53,6 +53,50 @@ pub fn run_c13(run: &mut Run) -> anyhow::Result<()> {
     for case in 0..(if run.quick() { 3 } else { 60 }) {
         reinsert_while_dialing(run, case)?;
     }
+    for case in 0..(if run.quick() { 3 } else { 40 }) {
+        dial_at_connection_limit(run, case)?;
+    }
+    Ok(())
+}
+
+/// Background dials to High-affinity peers are not subject to the connection limit: the dialer's limit is
+/// reached (an unknown inbound peer, or other High-affinity peers, hold the slots) and a reachable High
+/// peer must still be connected within a few checks.
+fn dial_at_connection_limit(run: &mut Run, case: u64) -> anyhow::Result<()> {
+    let seed = run.seed ^ 0x13_c1 ^ (case << 12);
+    run.mark(&format!("scenario dial_at_connection_limit case {case} seed {} (re-run with ./check C13 --seed <seed>)", run.seed));
+    let rt = paused_rt();
+    let res: anyhow::Result<(usize, usize)> = rt.block_on(async move {
+        let fabric = Fabric::new(seed);
+        let mut cfg: Config = config_idle(60_000);
+        cfg.connectivity_check_interval_ms = Some(1_000);
+        cfg.max_concurrent_connections = Some(1);
+        let d = start_node(&fabric, seed, 1, cfg)?;
+        let ntargets = 1 + (case % 3) as u16;
+        let mut targets = vec![];
+        for i in 0..ntargets {
+            targets.push(start_node(&fabric, seed, 10 + i, config_idle(60_000))?);
+        }
+        if case % 2 == 0 {
+            // an unknown peer takes the only slot first
+            let u = start_node(&fabric, seed, 5, config_idle(60_000))?;
+            u.net.connect(d.addr).await?;
+            std::mem::forget(u);
+        }
+        for t in &targets {
+            d.net.known_peers().insert(PeerInfo { peer_id: t.id, affinity: PeerAffinity::High, address: vec![t.addr.into()] });
+        }
+        tokio::time::sleep(Duration::from_millis(6_500)).await;
+        let n = targets.iter().filter(|t| d.net.peers().contains(&t.id)).count();
+        Ok((n, targets.len()))
+    });
+    drop(rt);
+    let (n, want) = res?;
+    run.eval(&format!("dial-at-connection-limit {case}"), true);
+    run.count("dial-at-connection-limit", if n == want { "all-connected" } else { "starved" });
+    if n != want {
+        run.oracle_fail(json!({"kind": "a reachable High-affinity peer was not connected by background dialing while the connection limit was reached", "connected": n, "high_affinity_peers": want, "limit": 1, "seed": run.seed, "case": case}));
+    }
     Ok(())
 }
 
